@@ -3,6 +3,11 @@
 import json, subprocess, sys
 
 claimed = {
+ "C04": dict(
+   text="Deductive proof that every measurement the reader stores is in base units for every float64 value: Reader.parseBenchmarkLine is verified as a whole against valueOK (either the written unit needs no normalisation, or Unit/Value are Tidy's pair and OrigUnit/OrigValue keep the written pair) — the obligation that exposed the `0 ns/op` defect (fixed).  benchunit.Tidy multiplies by the unit's factor; tidyUnit's fast paths and its sync.Map cache are proved coherent with the slow path (cache invariant); UnitMetadataMap.Get looks up under the normalised unit.  tidyUnitUncached and the unit tokeniser are only under a functional (determinism) assumption and a bounded stand-in against a reference normaliser (incl. idempotence), labelled bounded.",
+   note="Trusted: tidyUnitUncached is a function of its argument; sync.Map sequential semantics (lib/sync.spec); strings.Contains functional; Tidy's cache invariant is a global invariant not re-checked at call sites.",
+   technique="contract-based deductive verification (own VC generator over go/ssa; floats as SMT FloatingPoint; z3/cvc5) + bounded stand-in for the unit tokeniser",
+   design="5/C04"),
  "C02": dict(
    text="Deductive proof over the real code of the reader's per-line mechanisms: parseKeyValueLine (against the format's rune-level key rule kvScan, with soundness and ASCII completeness), splitField, the in-place configuration index of Result (ConfigIndex, ensureConfig, deleteConfig, SetConfig, GetConfig: representation invariant, abstract view, slot reuse without aliasing), Result.Clone (deep equality and freshness of every byte slice), Reader.Reset (queue, error and file configuration wiped, unit metadata kept) and intern — for all inputs, with safety (no panic) and termination obligations on every loop.  Not covered deductively: Scan's line loop as a fold over whole inputs, parseBenchmarkLine/parseUnitLine, Files.",
    note="Trusted: lib specs of utf8.DecodeRune, unicode.IsSpace/IsUpper/IsLower (exact on ASCII/Latin-1), bufio.NewScanner; interior pointers passed to contract functions are modelled by copy-in/copy-out; bufio.Scanner termination.",
